@@ -19,7 +19,7 @@ func init() {
 		Run: c20,
 		Explanation: "Decides the shapes that make initialisation idempotent: (R20.1) the maps of installed packages are filled and looked up with the same key function applied to references parsed with the same options, and on a hit the existing object's name is used; (R20.2) certificate.Generate and the secret writes are unreachable from the edge on which the fetched secret already holds material (complete CA: both keys; leaf secrets: any key), the complete-CA edge returns the parsed existing signer; the CA write's error is handled unfiltered and the new signer is returned only after it was acknowledged; " +
 			"(R20.3) both leaf certificates are signed by the signer returned by loadOrGenerateCA in the same Run, ca.crt is that signer's certificate, DNS names come from the configured names, and init wires DNSNamesForService for the webhook server certificate; (R20.4) the default StoreConfig and DeploymentRuntimeConfig are created with AlreadyExists ignored and no other write, the Lock is applied with only its name populated; " +
-			"(R20.5) every core CRD with webhook conversion and every webhook entry gets caBundle from the TLS secret before the Apply, and an empty tls.crt is an error before anything is applied. (R20.6) the index key is derived from the parsed reference's own Identifier()/Context(), not from delimiters searched in the string. R20.1 also requires that the loops indexing the existing packages are left early only with an error. R20.6 also requires that the identifier is removed as a suffix; (R20.7) certificates are created with the signer's certificate as parent and the signer's key.",
+			"(R20.5) every core CRD with webhook conversion and every webhook entry gets caBundle from the TLS secret before the Apply, and an empty tls.crt is an error before anything is applied. (R20.6) the index key is derived from the parsed reference's own Identifier()/Context(), not from delimiters searched in the string. R20.1 also requires that the loops indexing the existing packages are left early only with an error. R20.6 also requires that the identifier is removed as a suffix; (R20.7) certificates are created with the signer's certificate as parent and the signer's key. R20.5 also requires that the injection loop runs for webhook configurations of any name.",
 		NotDecided:  []string{"equality of cluster state after n runs", "x509 validity of issued certificates (value-level)", "recovery from partially written secrets", "concurrent initialisers beyond the unfiltered-error condition"},
 		Assumptions: []string{"APIPatchingApplicator.Apply is itself idempotent", "certificate.Generate signs with the signer it is given"},
 	})
